@@ -22,7 +22,7 @@
 From Coq Require Import ZArith List Bool.
 From PTK Require Import Lib.Sx Lib.Py Model.Document Model.BufferEdit Model.C14_HistoryNav
   Proofs.C14_Facts Proofs.C14_Nav Proofs.C14_Accept Proofs.C14_Mixed Proofs.C14_Sessions
-  Proofs.C14_Threaded.
+  Proofs.C14_Threaded Proofs.C14_Verdict.
 Import ListNotations.
 Open Scope Z_scope.
 
@@ -58,7 +58,7 @@ Print Assumptions C14_edits_kept.
    unchanged: edits to recalled entries are kept while browsing and while the
    history is still loading, and nothing else ever changes an entry. *)
 Theorem C14_edits_kept_mixed : forall c ops s,
-  thr (th s) = false -> Inv s -> Forall wf_op ops -> Forall browse_op ops ->
+  thr (th s) = false -> Inv s -> Forall browse_op ops ->
   (length (wl s) <= length (wl (steps c s ops)))%nat /\
   sto (store (steps c s ops)) = sto (store s) /\
   forall r, (r < length (wl s))%nat -> ~ In r (touched c s ops) ->
@@ -66,10 +66,9 @@ Theorem C14_edits_kept_mixed : forall c ops s,
 Proof. exact browse_steps. Qed.
 Print Assumptions C14_edits_kept_mixed.
 
-(* 0 <= working_index < len(working_lines) in every reachable state (the
-   go_to_history index must be non-negative). *)
+(* 0 <= working_index < len(working_lines) in every reachable state. *)
 Theorem C14_index_inv : forall c ops s,
-  Forall wf_op ops -> Inv s -> Inv (steps c s ops).
+  Inv s -> Inv (steps c s ops).
 Proof. exact steps_inv. Qed.
 Print Assumptions C14_index_inv.
 
@@ -253,6 +252,48 @@ Theorem C14_population_prepends : forall s,
   exists new, wl (pop_step s) = new ++ wl s.
 Proof. exact pop_step_shift. Qed.
 Print Assumptions C14_population_prepends.
+
+(* ---------------------------------------------------------------------- *)
+(* "Accepting succeeds only if the validator passes" *)
+
+(* For EVERY validator (it may look at the cursor) a cached VALID validation
+   state is the validator's verdict on the current document - text and cursor -
+   in every reachable state, for both kinds of History object, whatever the
+   operations (edits, cursor movements, browsing, population, validate-while-
+   typing runs, resets, ...). *)
+Theorem C14_verdict_valid : forall c ops storage e k,
+  let s := steps c (init_k storage e k) ops in
+  vst s = V_VALID -> verdict c s = None.
+Proof. exact verdict_valid. Qed.
+Print Assumptions C14_verdict_valid.
+
+(* ... hence input is accepted only if the validator passes on it. *)
+Theorem C14_accept_only_if_valid : forall c ops storage e k,
+  let s := steps c (init_k storage e k) ops in
+  snd (validate_and_handle c s) <> None -> verdict c s = None.
+Proof. exact accept_only_if_reachable. Qed.
+Print Assumptions C14_accept_only_if_valid.
+
+(* A cached INVALID state stays across cursor movements (the error is shown
+   until the text changes); for a validator that does not look at the cursor
+   ([cursor_free]) it, too, is the validator's verdict on the current document. *)
+Theorem C14_verdict_cached : forall c ops storage e k,
+  cursor_free c ->
+  let s := steps c (init_k storage e k) ops in
+  (vst s = V_VALID -> verdict c s = None) /\ (vst s = V_INVALID -> verdict c s <> None).
+Proof. exact verdict_cached. Qed.
+Print Assumptions C14_verdict_cached.
+
+(* Before 826cb7e (finding C14-F4, repaired in /repo) the cursor setter kept a
+   VALID verdict computed at another cursor position.  Witness: validator
+   rejecting cursor position 0; type 'a' (validated while typing: VALID), the
+   old setter moves the cursor to 0, Enter -> accepted. *)
+Theorem C14_accept_only_if_valid_cursor_pinned_refuted :
+  exists c s, (exists ops, s = steps c (init [] false) ops) /\
+    let s' := set_cursor_pinned s 0 in
+    verdict c s' <> None /\ snd (validate_and_handle c s') = Some (text s') /\ text s' <> [].
+Proof. exact accept_only_if_cursor_pinned_refuted. Qed.
+Print Assumptions C14_accept_only_if_valid_cursor_pinned_refuted.
 
 (* ---------------------------------------------------------------------- *)
 (* ThreadedHistory *)
